@@ -1354,6 +1354,20 @@ func (ss *ServerSession) handleRequestInner(sc *ServerConn, req *base.Request) (
 			for _, sm := range ss.setuppedMedias {
 				err = sm.start()
 				if err != nil {
+					// go back to the previous state, otherwise the session
+					// remains in RECORD state without a timeout and is never closed.
+					for _, sm2 := range ss.setuppedMedias {
+						sm2.stop()
+					}
+
+					ss.timeDecoder = nil
+
+					ss.destroyWriter()
+
+					ss.propsMutex.Lock()
+					ss.state = ServerSessionStatePreRecord
+					ss.propsMutex.Unlock()
+
 					return &base.Response{
 						StatusCode: base.StatusBadRequest,
 					}, err
